@@ -113,6 +113,9 @@ ErrorTouchesOnly(pre, post, err) ==
   /\ post.ver = pre.ver /\ post.typ = pre.typ /\ post.mid = pre.mid /\ post.tok = pre.tok
   /\ post.code = err.code.v /\ post.pay = err.msg
   /\ GetContentFormat(post) = "text/plain; charset=utf-8"
+  \* Content-Format is not repeatable (RFC 7252 5.4.5, 5.10): "the content format" of the reply is that one
+  \* value, whatever the prepared reply carried under the option before
+  /\ Len(ValsOf(post.opts, OPT_CONTENT_FORMAT)) = 1
   /\ \A i \in 1 .. Len(pre.opts) : pre.opts[i][1] # OPT_CONTENT_FORMAT =>
         (\E j \in 1 .. Len(post.opts) : post.opts[j] = pre.opts[i])
   /\ \A j \in 1 .. Len(post.opts) : post.opts[j][1] # OPT_CONTENT_FORMAT =>
